@@ -121,6 +121,20 @@ func eagerAgrees(mk func() vegeta.Targeter, obs []tobs) bool {
 			return false
 		}
 	}
+	// the attack command's default path hands the list to a static targeter: it gives the
+	// targets in file order, starting with the first, and starts over after the last
+	st := vegeta.NewStaticTargeter(got...)
+	for i := 0; i < len(got)+2; i++ {
+		var t vegeta.Target
+		if st(&t) != nil {
+			return false
+		}
+		w := want[i%len(want)]
+		if t.Method != w.Method || t.URL != w.URL || !bytes.Equal(t.Body, w.Body) ||
+			!reflect.DeepEqual(map[string][]string(t.Header), map[string][]string(w.Header)) {
+			return false
+		}
+	}
 	return true
 }
 
@@ -166,7 +180,7 @@ func c14HTTP(idx int, rng *rand.Rand) Case {
 			nh = 5 + rng.Intn(4)
 		}
 		for j := 0; j < nh; j++ {
-			d.hdr = append(d.hdr, [2]string{keys[rng.Intn(len(keys))], []string{"1", "a b", "x:y", "t=1; u=2", "#notcomment", "@notfile"}[rng.Intn(6)]})
+			d.hdr = append(d.hdr, [2]string{keys[rng.Intn(len(keys))], []string{"1", "a b", "x:y", "t=1; u=2", "#notcomment", "@notfile", "http://h:80/p?q=1", "::1", "12:30:45", "a: b"}[rng.Intn(10)]})
 		}
 		if rng.Intn(4) == 0 {
 			d.body = []byte(fmt.Sprintf("body-%d-%d", idx, i))
